@@ -62,14 +62,24 @@ class Scheduler:
             raise Abort()
         enabled = self.enabled()
         if not enabled:
-            timed = [tid for tid, t in self.threads.items() if t["state"] in ("T", "Z")]
+            timed = sorted((tid for tid, t in self.threads.items() if t["state"] in ("T", "Z")),
+                           key=lambda k: (self.threads[k].get("deadline", self.now), k))
             if timed:
-                # virtual time advances to the earliest deadline: a timed wait expires / a sleeper wakes up
-                tid = min(timed, key=lambda k: (self.threads[k].get("deadline", self.now), k))
-                self.now = max(self.now, self.threads[tid].get("deadline", self.now))
-                self.threads[tid]["expired"] = self.threads[tid]["state"] == "T"
-                self.threads[tid]["state"] = "R"
-                enabled = [tid]
+                # Virtual time advances.  Timers never fire early but may fire late: every timed thread whose
+                # deadline lies within a jitter window after the earliest one is a candidate for "fires first";
+                # the policy picks one, the clock jumps to its deadline and every timer that is due by then
+                # fires too (in any order the policy likes) - check-then-act windows around timeouts open up.
+                first = self.threads[timed[0]].get("deadline", self.now)
+                jitter = 0.05 + 0.6 * max(0.0, first - self.now)
+                candidates = [tid for tid in timed if self.threads[tid].get("deadline", self.now) <= first + jitter]
+                pick = candidates[self.policy.choose(self, me, candidates)] if len(candidates) > 1 else candidates[0]
+                self.now = max(self.now, self.threads[pick].get("deadline", self.now))
+                enabled = []
+                for tid in timed:
+                    if self.threads[tid].get("deadline", self.now) <= self.now:
+                        self.threads[tid]["expired"] = self.threads[tid]["state"] == "T"
+                        self.threads[tid]["state"] = "R"
+                        enabled.append(tid)
             elif all(t["state"] == "F" for t in self.threads.values()):
                 return
             else:
@@ -175,7 +185,8 @@ class ReplayPolicy:
 def install(lazy_pool_module, get_sched):
     """Replace queue/time/Collector.start/run inside the given module.  Returns an `uninstall()`."""
     originals = {"queue": lazy_pool_module.queue, "time": lazy_pool_module.time,
-                 "start": lazy_pool_module.Collector.start, "run": lazy_pool_module.Collector.run}
+                 "start": lazy_pool_module.Collector.start, "run": lazy_pool_module.Collector.run,
+                 "is_alive": lazy_pool_module.Collector.is_alive, "join": lazy_pool_module.Collector.join}
     counter = {"q": 0}
 
     class ControlledQueue:
@@ -270,6 +281,9 @@ def install(lazy_pool_module, get_sched):
             thread["state"] = "F"
             if sched.all_workers_finished():
                 sched.wake_waiters("join-workers")
+            for other in sched.threads.values():
+                if other["state"] in ("B", "T") and other["on"] == ("join", tid):
+                    other["state"], other["on"] = "R", None
             if sched.deadlock is None:
                 try:
                     sched.switch(tid)
@@ -281,14 +295,44 @@ def install(lazy_pool_module, get_sched):
     lazy_pool_module.time = types.SimpleNamespace(sleep=controlled_sleep, time=lambda: get_sched().now,
                                                   monotonic=lambda: get_sched().now,
                                                   perf_counter=lambda: get_sched().now)
+    def is_alive(self) -> bool:
+        """Liveness as the scheduler knows it; asking is a scheduling point (a check-then-act window)."""
+        sched = get_sched()
+        tid = getattr(self, "_rtmon_tid", None)
+        if tid is None:
+            return originals["is_alive"](self)
+        sched.switch(sched.me())
+        return sched.threads[tid]["state"] != "F"
+
+    def join(self, timeout=None) -> None:
+        sched = get_sched()
+        tid = getattr(self, "_rtmon_tid", None)
+        if tid is None:
+            return originals["join"](self, timeout)
+        me = sched.me()
+        while sched.threads[tid]["state"] != "F":
+            thread = sched.threads[me]
+            thread["state"] = "T" if timeout is not None else "B"
+            thread["on"] = ("join", tid)
+            thread["deadline"] = sched.now + (timeout or 0.0)
+            thread.pop("expired", None)
+            sched.switch(me)
+            if thread.pop("expired", False):
+                return
+        return None
+
     lazy_pool_module.Collector.start = start
     lazy_pool_module.Collector.run = run
+    lazy_pool_module.Collector.is_alive = is_alive
+    lazy_pool_module.Collector.join = join
 
     def uninstall() -> None:
         lazy_pool_module.queue = originals["queue"]
         lazy_pool_module.time = originals["time"]
         lazy_pool_module.Collector.start = originals["start"]
         lazy_pool_module.Collector.run = originals["run"]
+        lazy_pool_module.Collector.is_alive = originals["is_alive"]
+        lazy_pool_module.Collector.join = originals["join"]
 
     return uninstall
 
